@@ -273,6 +273,14 @@ func runC19(c *Ctx) {
 			process(ft.Token, fmt.Sprintf("forged %s issued by %s", kind, ir))
 			distinct[fmt.Sprint("forged", kind, ir)] = true
 		}
+		// ... and with issuers that are well-formed nkeys of no public role (private-key, seed, unknown and unassigned
+		// prefixes around a true Ed25519 public key), correctly signed by the matching private key
+		for _, s := range nonPublicSigners(kr.by["account"]) {
+			p := payload(kind, "top", nil, s.pub, kr.by["account"].pub)
+			ft := forge(hdrV1, p, "v1", s)
+			process(ft.Token, fmt.Sprintf("forged %s issued by a key with the %s", kind, s.role))
+			distinct[fmt.Sprint("forged", kind, s.role)] = true
+		}
 	}
 	// Encode side
 	signers := map[string]nkeys.KeyPair{}
